@@ -113,6 +113,7 @@ class ActRun(busdiff.ImplRun):
             lim["pending"] = svc.pending
         self.log_seen = 0
         self.stubs = {}          # pid -> (tag, number) of stubs believed alive; programs are numbered in starting order
+        self.sitter_of = {}      # stub pid -> pid of the babysitter that started it
         self.nstarted = 0
         self.eof_unreliable = True
         self.info = []           # per step: programs started [(tag, number)], killed [number], ended (number or None)
@@ -180,6 +181,7 @@ class ActRun(busdiff.ImplRun):
             for rec in self._read_log():
                 _, tag, pid, ppid = rec
                 self.stubs[int(pid)] = (tag, self.nstarted)
+                self.sitter_of[int(pid)] = int(ppid)
                 started.append((tag, self.nstarted)); self.nstarted += 1
                 waiting.discard(int(ppid))
             # a babysitter that is gone will never report (the exec failed, or its program has already ended); one that
@@ -195,8 +197,16 @@ class ActRun(busdiff.ImplRun):
         for rec in self._read_log():
             _, tag, pid, ppid = rec
             self.stubs[int(pid)] = (tag, self.nstarted)
+            self.sitter_of[int(pid)] = int(ppid)
             started.append((tag, self.nstarted)); self.nstarted += 1
         return started
+
+    def _wait_dead(self, pids, timeout=6.0):
+        """wait until none of these processes is running any more (a babysitter exits once it has told the daemon what became
+        of its program: what it wrote is in the daemon's socket by then, and the next round trip finds it handled)"""
+        t0 = time.time()
+        while any(self._alive(p) for p in pids) and time.time() - t0 < timeout:
+            time.sleep(0.003)
 
     def _end_stub(self, tag, how):
         """the newest live stub with this tag is told to end; returns its number (None when there is none)"""
@@ -218,7 +228,11 @@ class ActRun(busdiff.ImplRun):
                 while self._alive(pid) and time.time() - t0 < 5:
                     time.sleep(0.002)
                 self.stubs.pop(pid, None)
-                time.sleep(0.06)          # the babysitter reports to the daemon through a socket pair
+                # the babysitter reports to the daemon through a socket pair, then exits
+                sitter = self.sitter_of.pop(pid, None)
+                if sitter is not None:
+                    self._wait_dead([sitter])
+                time.sleep(0.01)
                 return num
         return None
 
@@ -243,21 +257,29 @@ class ActRun(busdiff.ImplRun):
             inner = op
         got, newly = super().step(inner)
         if op[0] == "sendx":
-            # the exec failure reaches the daemon through the babysitter a moment later
-            time.sleep(0.12)
+            # the exec failure reaches the daemon through the babysitter a moment later: the babysitter forked for it (a child of
+            # the daemon we have not seen before) reports and exits
+            known = getattr(self, "_sitters", set())
+            self._wait_dead([p for p in self._children(self.d.proc.pid) if p not in known])
+            time.sleep(0.01)
             got2, newly2 = super().step(("nop",))
             for k, v in got2.items():
                 got.setdefault(k, []).extend(v)
             newly |= newly2
         started = self._collect_spawns()
         killed = []
-        if op[0] in ("actsleep", "advance"):
-            t0 = time.time()
-            while time.time() - t0 < (0.3 if op[0] == "actsleep" else 0.12):
-                killed = sorted(self.stubs[p][1] for p in before if not self._alive(p))
-                if len(killed) == len(before):
+        if op[0] in ("actsleep", "advance") and before:
+            # programs of activations that timed out are killed by the daemon in its timeout handler; give the kernel time to
+            # make that visible: until nothing has changed for 80 ms (at most 3 s)
+            t0 = last_change = time.time()
+            killed = []
+            while time.time() - t0 < 3.0:
+                now_killed = sorted(self.stubs[p][1] for p in before if not self._alive(p))
+                if now_killed != killed:
+                    killed, last_change = now_killed, time.time()
+                if len(killed) == len(before) or time.time() - last_change > (0.08 if op[0] == "advance" else 0.25):
                     break
-                time.sleep(0.01)
+                time.sleep(0.005)
             for p in list(before):
                 if not self._alive(p):
                     self.stubs.pop(p, None)
